@@ -501,26 +501,25 @@ func (c *ctx) checkStatus(path string, y, m, d, h, mi, s int) {
 	c.say("%s in %s: library SystemDateTime = %s, Event.Timestamp = %s | transmitted system date+time = ..%s (judged: %v), event timestamp = %s (judged: %v)",
 		path, c.z.name, gotSys, gotEv, want[2:], judgeSys, want, judgeEv)
 
+	if judgeSys || judgeEv {
+		c.cnt.Judged++ // one case per call, however many of its two date-times are judged
+	} else {
+		c.cnt.Unjudged++
+	}
 	if judgeSys {
-		c.cnt.Judged++
 		if sy < 0 || gotSys[2:] != want[2:] {
 			c.violation("C13/"+path+"/sysdatetime/"+cause, fmt.Sprintf("system date %x + system time %x (..%s) reported as SystemDateTime %s", dg[51:54], dg[37:40], want[2:], gotSys), k)
 		} else if enc, err := st.SystemDateTime.MarshalUT0311L0x(); err != nil || len(enc) != 7 || !bytes.Equal(enc[1:], append(append([]byte{}, dg[51:54]...), dg[37:40]...)) {
 			c.violation("C13/"+path+"/sysdatetime/re-encode-wire", fmt.Sprintf("SystemDateTime %s encodes back to %x (%v)", gotSys, enc, err), k)
 		}
-	} else {
-		c.cnt.Unjudged++
 	}
 	if judgeEv {
-		c.cnt.Judged++
 		if gotEv != want {
 			class := "wrong-civil-time"
 			c.violation("C13/"+path+"/event-timestamp/"+class, fmt.Sprintf("event timestamp %x (%s) reported as %s", dg[20:27], want, gotEv), k)
 		} else if enc, err := st.Event.Timestamp.MarshalUT0311L0x(); err != nil || !bytes.Equal(enc, dg[20:27]) {
 			c.violation("C13/"+path+"/event-timestamp/re-encode-wire", fmt.Sprintf("event timestamp %s encodes back to %x (%v)", gotEv, enc, err), k)
 		}
-	} else {
-		c.cnt.Unjudged++
 	}
 }
 
